@@ -249,7 +249,7 @@ def pad_big(r):
 ALL_BUILD = ("sr", "rr", "bye", "app", "sdes", "unknown", "fb", "custom", "compound", "chunk", "item", "fci", "pb")
 
 
-def build_stream(r, tier, kinds=ALL_BUILD, styles=("canon", "canon", "shuffle", "repeat", "owned", "probe", "probe"), big=None):
+def build_stream(r, tier, kinds=ALL_BUILD, styles=("canon", "canon", "minimal", "shuffle", "repeat", "owned", "probe", "probe"), big=None):
     """big: include the configurations around the 65536-word limit (slow: hundreds of kilobytes each);
     default: only in the thorough tier"""
     ce = []
@@ -259,7 +259,7 @@ def build_stream(r, tier, kinds=ALL_BUILD, styles=("canon", "canon", "shuffle", 
             if cfg.get("_big") and not big: continue
             # "light": only the packets at the 65536-word limit that are cheap to write (APP and
             # unknown packets with a long all-zero payload), two buffers each
-            if cfg.get("_big") and big == "light" and (cfg["k"] not in ("app", "unknown") or cfg.get("_size_only")): continue
+            if cfg.get("_big") and big == "light" and not cfg.get("_light") and (cfg["k"] not in ("app", "unknown") or cfg.get("_size_only")): continue
             style = r.choice(styles)
             ce.append((cfg, gen.render(cfg, r, style), {"style": style}))
     return fidelity.build_requests(ce, tier, r)
@@ -277,7 +277,7 @@ def group_stream(r, tier):
         for cfg in cfgs[:n] + [c for c in keep if c not in cfgs[:n]]:
             base = len(ce)
             ce.append((cfg, gen.render(cfg, r, "canon"), {"style": "canon", "group_rel": 0}))
-            for style in ("shuffle", "repeat", "owned", "probe", "probe"):
+            for style in ("shuffle", "repeat", "owned", "probe", "minimal"):
                 e = gen.render(cfg, r, style)
                 ce.append((cfg, e, {"style": style, "group_rel": len(ce) - base}))
     reqs = fidelity.build_requests(ce, "quick", r)
@@ -311,7 +311,7 @@ def base_streams_for(pid, r, tier):
     if pid == "C02":
         return build_stream(r, tier, ("sr", "rr")) + of_kinds(build_stream(r, "quick", ("pb",)), ("sr", "rr"))
     if pid == "C03":
-        return build_stream(r, tier, ("sdes",)) + of_kinds(build_stream(r, "quick", ("pb",)), ("sdes",))
+        return build_stream(r, tier, ("sdes",), big="light" if tier == "quick" else True) + of_kinds(build_stream(r, "quick", ("pb",)), ("sdes",))
     if pid == "C04":
         return build_stream(r, tier, ("bye", "app"), big="light" if tier == "quick" else True) + of_kinds(build_stream(r, "quick", ("pb",)), ("bye", "app"))
     if pid == "C05":
